@@ -42,6 +42,7 @@ func c17RunImpl(c corr.Case) []string {
 	}()
 	out := make([]string, 0, len(c.Lines))
 	k := 0
+	var prevGot, prevWant []byte
 	for _, line := range c.Lines {
 		t := strings.Fields(line)
 		out = append(out, guard(func() string {
@@ -163,6 +164,11 @@ func c17RunImpl(c corr.Case) []string {
 				if !bytes.Equal(got, data) {
 					return fmt.Sprintf("rt fail: read back %d bytes, differ from the %d written", len(got), len(data))
 				}
+				// what an earlier ReadFile returned is the caller's: reading another file must not change it
+				if prevGot != nil && !bytes.Equal(prevGot, prevWant) {
+					return fmt.Sprintf("rt fail: the %d bytes an earlier ReadFile returned changed when another file was read", len(prevGot))
+				}
+				prevGot, prevWant = got, append([]byte(nil), data...)
 				// and directly from the bottom layer (for wrappers that must write through)
 				if st.Name == "bp" || st.Name == "os" {
 					got2, err := afero.ReadFile(st.Base, st.P(path))
